@@ -29,11 +29,60 @@ func EndBlocker(ctx context.Context, k *keeper.Keeper) ([]abci.ValidatorUpdate, 
 	height := sdkCtx.BlockHeight()
 
 	if plan, found := k.ExecutorChangePlans[uint64(height)]; found { //nolint:gosec
-		err := k.ChangeExecutor(ctx, plan)
-		if err != nil {
+		return executeChangePlan(ctx, k, plan)
+	}
+
+	return k.BlockValidatorUpdates(ctx)
+}
+
+// executeChangePlan retires the whole current validator set through the
+// regular validator set update first, and installs the plan's validator only
+// afterwards. Validators are stored by operator address and indexed by
+// consensus key, so installing the plan's validator next to the validators it
+// replaces breaks as soon as the plan reuses one of their operator addresses
+// (the old key would never be removed from the consensus engine) or one of
+// their consensus keys (the key would be updated and removed in one batch).
+func executeChangePlan(ctx context.Context, k *keeper.Keeper, plan types.ExecutorChangePlan) ([]abci.ValidatorUpdate, error) {
+	validators, err := k.GetAllValidators(ctx)
+	if err != nil {
+		return nil, err
+	}
+	for _, validator := range validators {
+		validator.ConsPower = 0
+		if err := k.SetValidator(ctx, validator); err != nil {
 			return nil, err
 		}
 	}
 
-	return k.BlockValidatorUpdates(ctx)
+	removed, err := k.BlockValidatorUpdates(ctx)
+	if err != nil {
+		return nil, err
+	}
+
+	if err := k.ChangeExecutor(ctx, plan); err != nil {
+		return nil, err
+	}
+
+	added, err := k.BlockValidatorUpdates(ctx)
+	if err != nil {
+		return nil, err
+	}
+
+	// a consensus key that is retired and installed again must show up only
+	// once in the updates of a block
+	updates := make([]abci.ValidatorUpdate, 0, len(removed)+len(added))
+	for _, r := range removed {
+		reinstalled := false
+		for _, a := range added {
+			if a.PubKey.Equal(r.PubKey) {
+				reinstalled = true
+				break
+			}
+		}
+		if !reinstalled {
+			updates = append(updates, r)
+		}
+	}
+
+	return append(updates, added...), nil
 }
